@@ -2,7 +2,7 @@
 must-fail regions (each between `// MUSTFAIL <id>` and `// END <id>`), evaluated by
 `clang++ -fsyntax-only -ferror-limit=0`.  The compiler is the decision procedure; nothing is run.
 
-  static_assert "W:id"        holds  <=>  no 'static_assert failed' diagnostic carries the id
+  static_assert "W:id"        holds  <=>  no 'static_assert failed' / 'not an integral constant expression' diagnostic names it
   MUSTFAIL id ... END id      holds  <=>  at least one error or instantiation note points into the region
   everything else must compile: an error outside all regions makes the witness TU unusable (analysis broken)
 """
@@ -55,6 +55,15 @@ def run(chk, filename, rule, text, minimum=1, extra_flags=()):
     for b in blocks:
         if 'static_assert failed' in b['head'] and re.search(r'"W:', b['head']):
             continue
+        # a witness whose expression is no longer a constant expression (the constexpr evaluation hits undefined behaviour, e.g.
+        # a store past the buffer) does not hold either: the statement claims "this is a constant expression equal to true"
+        m = re.match(r'^%s:(\d+):\d+: error: static_assert expression is not an integral constant expression' % re.escape(path), b['head'])
+        if m:
+            stmt = ' '.join(src[int(m.group(1)) - 1:int(m.group(1)) + 3]).split(';')[0]
+            wid = re.search(r'static_assert\(.*"(W:[A-Za-z0-9_.:-]+)"', stmt)
+            if wid:
+                failed.add(wid.group(1))
+                continue
         owner = None
         for rid, (a, z) in regions.items():
             if any(a <= l <= z for l in b['lines']):
